@@ -16,9 +16,10 @@ import (
 // Rep is a point in some coordinate system: "aff" [X,Y] ((0,0) = infinity), "jac" [X,Y,Z],
 // "ext" [X,Y,ZZ,ZZZ], or "bool" (B).
 type Rep struct {
-	Sys string
-	C   []ofield.El
-	B   bool
+	Sys  string
+	C    []ofield.El
+	B    bool
+	Note string // Sys "note": the adapter observed a contract violation that has no value (see the text)
 }
 
 // ErrInputModified is returned by adapters when a call changed its input slices.
